@@ -245,3 +245,31 @@ raw("FX-D46-register-numbers-depend-on-hash-seed", "C11", {"sources": {
     "options": {"original_code_as_comment": False, "generated_comments": False, "inline_functions": True, "remove_labels": False, "append_version": True,
                 "compact": False, "tail_call_optimization": False, "use_push_pop_functions": False},
     "history": None, "hash_seeds": [1, 2]})
+prog("D23b-inlined-return-register-in-called-function", "C04", """
+def inner(p0):
+    return 4
+def callee():
+    d5.Setting = inner(1)
+d2.Setting = d1.Setting + 10
+def outer(p0):
+    callee()
+    return p0 + 1
+while True:
+    db.Setting = outer(d4.Setting)
+    callee()
+    yield_()
+""")
+prog("FX-D47-pop-ra-before-push-ra", "C06", """
+cnt = 10
+def bump():
+    return d0.Setting + 4
+def getv(p0):
+    if cnt > 4:
+        return
+    d5.Setting = bump()
+    d5.Setting = bump()
+while True:
+    getv(1)
+    d1.Setting = bump()
+    yield_()
+""", opts={"use_push_pop_functions": True, "inline_functions": False})
